@@ -875,6 +875,10 @@ def do_check(pid, cfg, tier, seed, ws, injected, args, t0):
         for u in undecided:
             log("UNDECIDED property=%s reason=%s" % (pid, u))
         return 2
+    if obligations == 0:
+        # vacuity guard: a run that generated no obligation decided nothing
+        log("UNDECIDED property=%s reason=no obligation was generated (vacuous run)" % pid)
+        return 2
     return 0
 
 
